@@ -133,7 +133,7 @@ def check_tree(case, ev):
         nt = len(visible) >= 3 and len(dirs) >= 2 and (hidden or odd_name or fault_mid)
         ev.case(case, nt, ["features-" + "".join("pinw"[i] if f else "-" for i, f in enumerate(case["features"])), "files%d" % min(len(visible), 6)] + (["fault-undecodable"] if bad else []) + (["fault-blocked"] if blocked else []) + (["fault-not-at-either-end"] if fault_mid else []) + (["hidden-entry"] if hidden else []) + (["large-bad-file"] if any(len(dat) > 9000 for r, dat in files if r in bad) else []))
         # (1) mirror set
-        if not set(top) <= {"in put", "out"}:
+        if not set(top) <= {"in put", "out"}:  # (the later steps create ref-*, cli-out, file-out, cwd)
             return Finding("mirror/something-else-created", "scratch directory now holds %r" % top, case)
         extra = sorted(set(got) - set(visible))
         if extra:
@@ -223,6 +223,21 @@ def check_tree(case, ev):
                 return core.exc_finding(exc, case, "anonymize_files-single/")
             if not os.path.isfile(outp) or open(outp, "rb").read() != ref[rel]:
                 return Finding("entrypoints/single-file-input-differs", "file %r" % rel, case)
+            # the same with a bare output file name (relative to the working directory)
+            cwd = os.getcwd()
+            work = os.path.join(d, "cwd")
+            os.makedirs(work)
+            try:
+                os.chdir(work)
+                with core.capture_logs(logging.ERROR) as errs2:
+                    _, exc = guarded(anonymize_files, os.path.join(src2, rel), "bare.out", **_opts(case))
+            finally:
+                os.chdir(cwd)
+            if exc is not None:
+                return core.exc_finding(exc, case, "anonymize_files-single/")
+            p2 = os.path.join(work, "bare.out")
+            if errs2 or not os.path.isfile(p2) or open(p2, "rb").read() != ref[rel]:
+                return Finding("entrypoints/single-file-bare-output-name", "input %r, output 'bare.out' in the working directory: errors %r, written: %r" % (rel, [m for _, m in errs2][:2], os.path.isfile(p2)), case)
     finally:
         shutil.rmtree(d, ignore_errors=True)
     return None
